@@ -1098,6 +1098,9 @@ func (x *Exec) simple(in ssa.Instruction, fr *frame, h *Heap) bool {
 		case xv.k == 'A' && xv.obj != 0 && h.objs[xv.obj] != nil && h.objs[xv.obj].kind == 'l' && xv.idx >= 0 && xv.idx < len(h.objs[xv.obj].elems) && h.objs[xv.obj].elems[xv.idx].k == 'G':
 			// field of a struct element of a concrete list: (object, element, field)
 			fr.vals[in] = AV{k: 'A', obj: xv.obj, idx: xv.idx, n: int64(in.Field), nk: true, what: "elemfield"}
+		case xv.k == 'A' && xv.what == "" && xv.obj != 0 && h.objs[xv.obj] != nil && h.objs[xv.obj].kind == 's' && xv.idx >= 0 && xv.idx < len(h.objs[xv.obj].fields) && h.objs[xv.obj].fields[xv.idx].k == 'G' && h.objs[xv.obj].fields[xv.idx].agg != nil:
+			// field of a struct-valued field (an embedded struct): (object, field, subfield)
+			fr.vals[in] = AV{k: 'A', obj: xv.obj, idx: xv.idx, n: int64(in.Field), nk: true, what: "subfield"}
 		case xv.k == 'A' && xv.what == "aggelem" && xv.agg != nil && xv.idx >= 0 && xv.idx < len(xv.agg.elems) && xv.agg.elems[xv.idx].k == 'G':
 			fr.vals[in] = AV{k: 'A', agg: xv.agg.elems[xv.idx].agg, idx: in.Field, what: "agg"}
 		case xv.k == 'A' && xv.obj != 0:
@@ -1349,6 +1352,17 @@ func (x *Exec) store(addr, val AV, h *Heap, in ssa.Instruction) {
 	if o == nil {
 		return
 	}
+	if addr.k == 'A' && addr.what == "subfield" {
+		if addr.idx >= 0 && addr.idx < len(o.fields) {
+			if e := o.fields[addr.idx]; e.k == 'G' && e.agg != nil && int(addr.n) < len(e.agg.fields) {
+				na := &aggVal{fields: append([]AV(nil), e.agg.fields...), elems: e.agg.elems, table: e.agg.table}
+				na.fields[addr.n] = val
+				e.agg = na
+				o.fields[addr.idx] = e
+			}
+		}
+		return
+	}
 	if addr.k == 'A' && addr.what == "elemfield" {
 		// a field of a struct element: the element's aggregate is copied before it is changed
 		if addr.idx >= 0 && addr.idx < len(o.elems) {
@@ -1410,6 +1424,14 @@ func (x *Exec) store(addr, val AV, h *Heap, in ssa.Instruction) {
 }
 
 func (x *Exec) load(addr AV, t types.Type, h *Heap, in ssa.Instruction) AV {
+	if addr.k == 'A' && addr.what == "subfield" {
+		if o := h.objs[addr.obj]; o != nil && addr.idx >= 0 && addr.idx < len(o.fields) {
+			if e := o.fields[addr.idx]; e.k == 'G' && e.agg != nil && int(addr.n) < len(e.agg.fields) {
+				return e.agg.fields[addr.n]
+			}
+		}
+		return x.opaqueOf(t, "load")
+	}
 	if addr.k == 'A' && addr.what == "elemfield" {
 		if o := h.objs[addr.obj]; o != nil && addr.idx >= 0 && addr.idx < len(o.elems) {
 			if e := o.elems[addr.idx]; e.k == 'G' && e.agg != nil && int(addr.n) < len(e.agg.fields) {
